@@ -180,3 +180,14 @@ Example label_index_instance :
   code_text "Y = X['2000'] + Z[`2001`]" = Some "self._Y[t] = self['X', '2000'] + self['Z', 2001]" /\
   stmt_of_equation (fun x => index_of x ["Y"; "X"; "Z"]) "Y = X['2000'] + Z[`2001`]" = None.
 Proof. vm_compute. split; reflexivity. Qed.
+
+(* integer-literal subtrees are computed on ints, as CPython does: -0 is 0 (no negative zero), max(1, 2, 3) is 3,
+   (2 - 5) is -3, 0 * -3 is 0; a float literal or a series stops the folding *)
+Example int_folding_instance :
+  stmt_of_equation (row_of ["Y"; "X"]) "Y = -0 + max(1, 2, 3)*X - (2 - 5) + 0*-3 + -0.0 - -X" =
+  Some ("Y", SAssign 0 0%Z
+          (EBin OSub (EBin OAdd (EBin OAdd (EBin OSub (EBin OAdd (ENum "0") (EBin OMul (ENum "3") (ERead 1 0%Z))) (ENum "-3"))
+                                           (ENum "0")) (ENeg (ENum "0.0"))) (ENeg (ERead 1 0%Z)))) /\
+  (lit_float "-0", lit_float "-3", lit_float "0.0") = (0, -3, 0)%float /\
+  PrimFloat.eqb (PrimFloat.div 1 (lit_float "-0")) infinity = true.
+Proof. vm_compute. repeat split; reflexivity. Qed.
